@@ -15,11 +15,10 @@ def weave_instances(tier, ob, prefix):
         tuples = []
         for na in (1, 2, 3):
             for nb in (1, 2):
-                for pla in (1, 2, 3, 4, 5):
-                    for plb in (1, 2, 3, 4):
-                        for pl in range(max(pla, plb), pla + plb + 1):
-                            if pl <= 6:
-                                tuples.append((na, nb, pla, plb, pl, min(4, max(pla, plb))))
+                for pla, plb in ((2, 2), (3, 2), (2, 3), (3, 3), (4, 2), (4, 3), (5, 2)):
+                    for pl in range(max(pla, plb), pla + plb + 1):
+                        if pl <= 6:
+                            tuples.append((na, nb, pla, plb, pl, min(4, max(pla, plb))))
     for na, nb, pla, plb, pl, lmax in tuples:
         nbytes = (na + nb) * (lmax + 2) + pl
         out.append(Inst(ob=ob, name="%s_a%d_b%d_pla%d_plb%d_pl%d" % (prefix, na, nb, pla, plb, pl), harness="c01_weave.c",
@@ -56,7 +55,7 @@ def valid_paths(la, lb):
 def doalign_instances(tier, ob, prefix):
     out = []
     tup = [(1, 1, 2, 3, 1), (2, 1, 3, 2, 1)] if tier == "quick" else \
-          [(ga, gb, la, lb, last) for ga in (1, 2) for gb in (1, 2) for la in (1, 2, 3) for lb in (1, 2, 3) for last in (0, 1) if (ga == 1 or la >= 2) and (gb == 1 or lb >= 2)]
+          [(ga, gb, la, lb, last) for ga in (1, 2) for gb in (1, 2) for (la, lb) in ((2, 3), (3, 2), (2, 2)) for last in (0, 1)]
     for ga, gb, la, lb, last in tup:
       # problem size the DP is handed (do_align swaps so that the first operand is the shorter one / the profile)
       if ga == 1 and gb > 1:
@@ -66,6 +65,8 @@ def doalign_instances(tier, ob, prefix):
       else:
           pla, plb = (la, lb) if la < lb else (lb, la)
       paths = valid_paths(pla, plb)
+      if tier != "quick":
+          paths = paths[::max(1, len(paths) // 4)][:4]
       if tier == "quick":
           paths = paths[:1]   # quick: one path per size tuple, last-task variant (no update_n): the 900 s budget of the quick tier
       for pi, path in enumerate(paths):
